@@ -13,6 +13,7 @@ package labelindex
 
 import (
 	"fmt"
+	"regexp"
 	"sort"
 	"strings"
 	"testing"
@@ -181,6 +182,31 @@ func (u *c07Universe) effective(env *c07Env, it c07Item) map[string]string {
 		}
 	}
 	return out
+}
+
+var (
+	c07ReTime = regexp.MustCompile(`\d{4}-\d\d-\d\d \d\d:\d\d:\d\d(\.\d+)? [+-]\d{4} \w+( m=[+-][\d.]+)?`)
+	c07RePtr  = regexp.MustCompile(`0x[0-9a-f]+`)
+	c07ReMap  = regexp.MustCompile(`map\[[^\]]*\]`)
+	c07ReSp   = regexp.MustCompile(`\s+`)
+)
+
+// c07PanicLine turns a panic value into a stable one-line class (logrus Panic() panics with the
+// *Entry, whose dump contains pointers, field maps and a timestamp).
+func c07PanicLine(val string) string {
+	line := val
+	if i := strings.IndexByte(line, '\n'); i >= 0 {
+		line = line[:i]
+	}
+	line = c07ReTime.ReplaceAllString(line, "")
+	line = c07RePtr.ReplaceAllString(line, "")
+	line = c07ReMap.ReplaceAllString(line, "")
+	line = strings.NewReplacer("&{", "", "<nil>", "", "}", "").Replace(line)
+	line = strings.TrimSpace(c07ReSp.ReplaceAllString(line, " "))
+	if len(line) > 100 {
+		line = line[:100]
+	}
+	return line
 }
 
 func c07HasDup(l []string) bool {
@@ -402,11 +428,7 @@ func c07Spec(u *c07Universe, depth int, tree bool, workers int) *hbfs.Spec[*c07S
 					return "C07:panic:duplicate-parent"
 				}
 			}
-			line := val
-			if i := strings.IndexByte(line, '\n'); i >= 0 {
-				line = line[:i]
-			}
-			return "C07:panic:" + last.Op + ":" + line
+			return "C07:panic:" + last.Op + ":" + c07PanicLine(val)
 		},
 	}
 	if tree {
@@ -472,8 +494,8 @@ func TestVerif_C07(t *testing.T) {
 		// graph mode: full universe (with the duplicate-parent lists)
 		hbfs.Explore(c, c07Spec(full, c.Pick(3, 5), false, workers))
 		// small universe: deeper graph search, to fixpoint when the budget allows
-		st := hbfs.Explore(c, c07Spec(small, c.Pick(6, 30), false, workers))
-		c.Extra("small_universe_fixpoint_reached", st.Complete && st.Depth < c.Pick(6, 30))
+		st := hbfs.Explore(c, c07Spec(small, c.Pick(5, 30), false, workers))
+		c.Extra("small_universe_fixpoint_reached", st.Complete && st.Depth < c.Pick(5, 30))
 		// tree mode (every history, no merging): universe WITHOUT duplicate parent lists, so that no
 		// panic class can mask anything, and the small one with them
 		hbfs.Explore(c, c07Spec(nodup, c.Pick(2, 3), true, workers))
